@@ -309,7 +309,8 @@ def lookups(ctx, comps, assigns, rng):
             n += 1
             if not ctx.mine(n):
                 continue
-            lk = ir.Lookup(tuple(((comps[i],), 8 * (j + 1)) for j, i in enumerate(combo)))
+            # values 0, 8, 16, ...: a looked-up value of 0 is a value, not "no match"
+            lk = ir.Lookup(tuple(((comps[i],), 8 * ((j + n) % 3)) for j, i in enumerate(combo)))
             for route in ("ctor", "xml"):
                 if route == "ctor":
                     benc = build.encoding(ir.BinEnc(lk))
